@@ -118,7 +118,7 @@ func checkC08(c *run.Ctx) {
 	n2 := c.N(1500, 40000)
 	c.Phase("grammar-docs", func() {
 		c.Parallel("gram", n2, func(i int, r *rand.Rand) {
-			d, err := gen.Pipeline(r, gen.PipeOpts{Str: gen.StringOpts{Tricky: true}, Unknown: true, Sharing: i%3 == 0, TrickyKeys: true, BigMaps: i%4 == 0}.NoSweep())
+			d, err := gen.Pipeline(r, gen.PipeOpts{Str: gen.StringOpts{Tricky: true}, Unknown: true, Sharing: mix(i, 1, 3) == 0, TrickyKeys: true, BigMaps: mix(i, 2, 4) == 0}.NoSweep())
 			if err != nil {
 				return
 			}
@@ -191,7 +191,7 @@ func checkC08(c *run.Ctx) {
 			id := run.CaseID("prog", i)
 			c.Eval(1)
 			m := docToAny(tree).(*ordered.MapSA)
-			if i%3 == 1 && len(tree.Map) > 0 {
+			if mix(i, 3, 3) == 1 && len(tree.Map) > 0 {
 				// built with the variadic constructor from a slice of pairs, one key given twice now and then (what that
 				// means is the constructor's business; the tree then follows what iteration shows)
 				var pairs []ordered.Tuple[string, any]
@@ -214,7 +214,7 @@ func checkC08(c *run.Ctx) {
 			// history (always touching the first pair in one of the variants) to both the map
 			// and the tree, so that the encoders see tombstoned storage as well
 			nops := 0
-			if i%2 == 0 && len(tree.Map) >= 3 {
+			if mix(i, 4, 2) == 0 && len(tree.Map) >= 3 {
 				for k, n := 0, 1+r.IntN(3); k < n && len(tree.Map) >= 2; k++ {
 					j := r.IntN(len(tree.Map))
 					if k == 0 && r.IntN(2) == 0 {
@@ -281,7 +281,7 @@ func checkC08(c *run.Ctx) {
 			}
 			c.Count("programmatic_yaml_roundtrips", 1)
 			// MapSS as well
-			if i%4 == 0 {
+			if mix(i, 5, 4) == 0 {
 				ss := ordered.NewMap[string, string](0)
 				for _, p := range tree.Map {
 					if p.Val.Kind == doc.KStr {
